@@ -34,16 +34,17 @@ BASE = dict(
     treacherous=0.5, shapes=0.05, str_dtype=0.3, measures=SET_JOINS,
     threads=0.2, process=0.5, extras=0.5, outs=0.5, big=0.1,
     wrong_mode_filters=0.0, siblings=0.08, retune=0.0, qgram_pref=0.2,
-    fault_hist=0.12)
+    fault_hist=0.12, edit=0.0)
 
 
 def profile(prop):
     p = dict(BASE)
     if prop == 'C01':
         p.update(tight=0.6, treacherous=0.7, big=0.25, p_missing=0.04,
-                 p_empty=0.04)
+                 p_empty=0.04, edit=0.12, hist=(1, 3))
     elif prop == 'C02':
-        p.update(tight=0.3, outs=0.8, p_missing=0.15, rows=(0, 12))
+        p.update(tight=0.3, outs=0.8, p_missing=0.15, rows=(0, 12), edit=0.08,
+                 hist=(1, 3))
     elif prop == 'C03':
         p.update(measures=['EDIT_DISTANCE'], tight=0.0, siblings=0.2)
     elif prop == 'C04':
@@ -97,7 +98,7 @@ def profile(prop):
                  faults={'worker_crash': 0.3, 'tok_raise': 0.5,
                          'sim_raise': 0.2}, p_fault=0.2, rows=(0, 8),
                  tight=0.1, wrong_mode_filters=0.3, chain_candsets=0.5,
-                 threads=0.35, siblings=0.25, retune=0.08)
+                 threads=0.35, siblings=0.25, retune=0.08, edit=0.06)
     elif prop == 'C15':
         p.update(ops={'join': 0.4, 'filter_tables': 0.2, 'filter_candset': 0.1,
                       'apply_matcher': 0.1, 'filter_pair': 0.05,
@@ -576,6 +577,8 @@ def tight_scenario(g, lmeta, rmeta, measure, threshold):
     most frequent, the rarest or random tokens.  Returns possibly adjusted
     threshold."""
     rng = g.rng
+    if lmeta.get('keyjoin') or rmeta.get('keyjoin'):
+        return threshold      # nothing can be planted in a key column
     maxn = max(6, min(80, g.maxtok * 2))
     t = threshold
     a = b = None
@@ -799,6 +802,12 @@ def table_view(g, base, same_as=None):
         v['keytype'] = base['key2type']
     if same_as is not None and rng.random() < 0.3:
         v['v'], v['s'] = base['s'], base['v']
+    if v['keytype'] == 'str' and rng.random() < 0.06:
+        # a unique string column that serves as key *and* as join attribute
+        # (on this side only, usually): the projected table then has one
+        # column where it normally has two
+        v['v'] = v['s'] = v['key']
+        v['keyjoin'] = True
     return v
 
 
@@ -1025,6 +1034,8 @@ def ed_tight_scenario(g, lmeta, rmeta, threshold):
     threshold, built from strings with runs of one character (repeated
     q-grams): the boundary cases of the edit-distance bounds."""
     rng = g.rng
+    if lmeta.get('keyjoin') or rmeta.get('keyjoin'):
+        return None
     chars = g.chars if len(g.chars) >= 2 else 'ab'
     t = int(threshold)
 
@@ -1068,6 +1079,8 @@ def maybe_tight_filter(g, fspec, l, r):
     """Plant a boundary pair for this (fresh) filter.  Returns the planted
     pair or None."""
     rng = g.rng
+    if l.get('keyjoin') or r.get('keyjoin'):
+        return None
     m = fspec.get('measure', 'OVERLAP').upper()
     if fspec['kind'] != 'OverlapFilter' and m in ('JACCARD', 'COSINE', 'DICE',
                                                   'OVERLAP') and \
@@ -1503,6 +1516,42 @@ def gen_retune(g, prefer=None):
     return {'op': 'retune', 'tok': name, 'set': ch}
 
 
+def gen_edit(g, prev):
+    """The caller edits one join-attribute cell of a table an earlier call
+    used (a present string is replaced by another present string, often one
+    taken from the other table, so that a pair newly qualifies)."""
+    rng = g.rng
+    case = g.case
+    side = rng.choice(['l', 'r'])
+    other = 'r' if side == 'l' else 'l'
+    if not isinstance(prev.get(side), str) or \
+            not isinstance(prev.get(other), str):
+        return None
+    tname = prev[side]
+    spec = case['tables'].get(tname)
+    ospec = case['tables'].get(prev[other])
+    if spec is None or ospec is None:
+        return None
+    col, kcol = prev[side + '_attr'], prev[side + '_key']
+    if col == kcol:
+        return None
+    ci, ki = spec['columns'].index(col), spec['columns'].index(kcol)
+    rows = [r for r in spec['rows'] if r[ci] is not None]
+    if not rows:
+        return None
+    row = rng.choice(rows)
+    oci = ospec['columns'].index(prev[other + '_attr'])
+    pool = [r[oci] for r in ospec['rows']
+            if isinstance(r[oci], str) and r[oci] != row[ci]]
+    if rng.random() < 0.3 or not pool:
+        pool = [r[ci] for r in rows if r[ci] != row[ci]]
+    if not pool:
+        return None
+    return {'op': 'edit_table', 't': tname, 'key_col': kcol, 'key': row[ki],
+            'col': col, 'value': rng.choice(pool),
+            'how': rng.choice(['inplace', 'inplace', 'copy', 'assign'])}
+
+
 def generate(prop, seed, run, overrides=None):
     rng = random.Random(mix(seed, PROP_NO[prop], run))
     prof = profile(prop)
@@ -1545,6 +1594,26 @@ def generate(prop, seed, run, overrides=None):
                         again['n_jobs'] = rng.choice([1, 1, 2, 3])
                     case['history'].append(again)
                     continue
+        if prof.get('edit') and case['history'] and \
+                rng.random() < prof['edit']:
+            prev = None
+            for o in reversed(case['history']):
+                if o['op'] in ('join', 'filter_tables'):
+                    prev = o
+                    break
+            op = gen_edit(g, prev) if prev is not None else None
+            if op:
+                import copy
+                case['history'].append(op)
+                # the same call again on the edited (or re-derived) table: what
+                # a cache that survives on the DataFrame object gets wrong
+                again = copy.deepcopy(prev)
+                for k2 in ('variants', 'fault'):
+                    again.pop(k2, None)
+                if 'plan' in again:
+                    again['plan'] = gen_plan(g)
+                case['history'].append(again)
+                continue
         if prof['reject'] and rng.random() < prof['reject']:
             op = genreject.gen_reject(g)
             if op:
